@@ -363,6 +363,8 @@ fn main() {
                 if r1 == r2 { "equal".to_string() } else { "different".to_string() }
             }
             "chain_link" => chain_link(p[1].parse().unwrap()),
+            "cert_hash" => cert_hash(p[1]),
+            "pm_hash" => pm_hash(p[1]),
             "epoch_gap" => {
                 let a = Epoch(p[1].parse().unwrap());
                 let b = Epoch(p[2].parse().unwrap());
@@ -371,5 +373,122 @@ fn main() {
             _ => "unknown-query".to_string(),
         };
         println!("{}", out);
+    }
+}
+
+
+fn unhex(s: &str) -> String {
+    let bytes: Vec<u8> = (0..s.len() / 2).map(|i| u8::from_str_radix(&s[2 * i..2 * i + 2], 16).unwrap()).collect();
+    String::from_utf8_lossy(&bytes).to_string()
+}
+
+/// cert_hash <hex of JSON {"field": name, "a": value, "b": value}>: two certificates that differ in that field only; are their hashes equal?
+/// strings travel hex-encoded, integers as decimal strings, signed entity types as "MithrilStakeDistribution:5" / "CardanoDatabase:5:7" ...
+fn cert_hash(spec_hex: &str) -> String {
+    use chrono::{DateTime, Utc};
+    use mithril_common::entities::{CardanoDbBeacon, Certificate, CertificateSignature, SignedEntityType, StakeDistributionParty};
+    use mithril_common::test::builder::{CertificateChainBuilder, MithrilFixtureBuilder};
+    let spec: serde_json::Value = match serde_json::from_str(&unhex(spec_hex)) { Ok(v) => v, Err(e) => return format!("unsupported (spec: {})", e) };
+    let field = spec["field"].as_str().unwrap_or("").to_string();
+    let chain = CertificateChainBuilder::new().with_total_certificates(3).with_certificates_per_epoch(1).build();
+    let base: Certificate = chain.certificates_chained[0].clone();
+    let genesis: Certificate = chain.genesis_certificate().clone();
+    let other: Certificate = chain.certificates_chained[1].clone();
+    let _ = MithrilFixtureBuilder::default();
+    let num = |v: &serde_json::Value| -> i128 { v.as_str().map(|s| s.parse::<i128>().unwrap_or(0)).unwrap_or_else(|| v.as_i64().unwrap_or(0) as i128) };
+    let time = |v: &serde_json::Value| -> Option<DateTime<Utc>> {
+        let ns = num(v);
+        DateTime::<Utc>::from_timestamp(ns.div_euclid(1_000_000_000) as i64, ns.rem_euclid(1_000_000_000) as u32)
+    };
+    let entity = |v: &serde_json::Value| -> Option<SignedEntityType> {
+        let t = v.as_str()?.to_string();
+        let q: Vec<&str> = t.split(':').collect();
+        let n = |i: usize| q.get(i).and_then(|x| x.parse::<u64>().ok()).unwrap_or(0);
+        Some(match q[0] {
+            "MithrilStakeDistribution" => SignedEntityType::MithrilStakeDistribution(Epoch(n(1))),
+            "CardanoStakeDistribution" => SignedEntityType::CardanoStakeDistribution(Epoch(n(1))),
+            "CardanoDatabase" => SignedEntityType::CardanoDatabase(CardanoDbBeacon::new(n(1), n(2))),
+            "CardanoTransactions" => SignedEntityType::CardanoTransactions(Epoch(n(1)), BlockNumber(n(2))),
+            "CardanoBlocksTransactions" => SignedEntityType::CardanoBlocksTransactions(Epoch(n(1)), BlockNumber(n(2)), mithril_common::entities::BlockNumberOffset(n(3))),
+            _ => return None,
+        })
+    };
+    let mut unsupported = false;
+    let mut apply = |c: &mut Certificate, v: &serde_json::Value, second: bool| {
+        let f = field.as_str();
+        let sv = || unhex(v.as_str().unwrap_or(""));
+        if f == "previous_hash" { c.previous_hash = sv(); }
+        else if f == "signed_message" { c.signed_message = sv(); }
+        else if f == "epoch.0" { c.epoch = Epoch(num(v) as u64); }
+        else if f == "metadata.network" { c.metadata.network = sv(); }
+        else if f == "metadata.protocol_version" { c.metadata.protocol_version = sv(); }
+        else if f == "metadata.protocol_parameters.k" { c.metadata.protocol_parameters.k = num(v) as u64; }
+        else if f == "metadata.protocol_parameters.m" { c.metadata.protocol_parameters.m = num(v) as u64; }
+        else if f == "metadata.protocol_parameters.phi_f" { c.metadata.protocol_parameters.phi_f = if second { 0.5 } else { 0.2 }; }
+        else if f == "metadata.initiated_at" { match time(v) { Some(t) => c.metadata.initiated_at = t, None => unsupported = true } }
+        else if f == "metadata.sealed_at" { match time(v) { Some(t) => c.metadata.sealed_at = t, None => unsupported = true } }
+        else if f.starts_with("metadata.signers") {
+            if c.metadata.signers.is_empty() { c.metadata.signers.push(StakeDistributionParty { party_id: "p".to_string(), stake: 1 }); }
+            if f.ends_with("party_id") { c.metadata.signers[0].party_id = sv(); }
+            else if f.ends_with("stake") { c.metadata.signers[0].stake = num(v) as u64; }
+            else if f.ends_with("len") { if second { c.metadata.signers.push(StakeDistributionParty { party_id: "extra".to_string(), stake: 7 }); } }
+            else { unsupported = true; }
+        }
+        else if let Some(k) = f.strip_prefix("protocol_message.part.") {
+            match serde_json::from_value::<mithril_common::entities::ProtocolMessagePartKey>(serde_json::json!(part_key_name(k))) {
+                Ok(key) => { c.protocol_message.set_message_part(key, sv()); }
+                Err(_) => unsupported = true,
+            }
+        }
+        else if f == "signature.entity" {
+            match (entity(v), &c.signature) {
+                (Some(e), CertificateSignature::MultiSignature(_, sig)) => c.signature = CertificateSignature::MultiSignature(e, sig.clone()),
+                _ => unsupported = true,
+            }
+        }
+        else if f == "aggregate_verification_key" { if second { c.aggregate_verification_key = other.aggregate_verification_key.clone(); } }
+        else if f == "signature.MultiSignature.1" {
+            if second { if let (CertificateSignature::MultiSignature(e, _), CertificateSignature::MultiSignature(_, s2)) = (&c.signature, &other.signature) { c.signature = CertificateSignature::MultiSignature(e.clone(), s2.clone()); } }
+        }
+        else if f == "signature.discr" { if second { c.signature = genesis.signature.clone(); } }
+        else if f == "ancillary_prover_data.is_some" { if second { c.ancillary_prover_data = None; } else if c.ancillary_prover_data.is_none() { unsupported = true; } }
+        else if f == "ancillary_verifier_data.is_some" { if second { c.ancillary_verifier_data = None; } else if c.ancillary_verifier_data.is_none() { unsupported = true; } }
+        else { unsupported = true; }
+    };
+    let mut ca = base.clone();
+    let mut cb = base.clone();
+    apply(&mut ca, &spec["a"], false);
+    apply(&mut cb, &spec["b"], true);
+    if unsupported { return format!("unsupported (field {})", field); }
+    match (ca.try_compute_hash(), cb.try_compute_hash()) {
+        (Ok(x), Ok(y)) => if x == y { "equal".to_string() } else { "different".to_string() },
+        _ => "unsupported (hash failed)".to_string(),
+    }
+}
+
+fn part_key_name(variant: &str) -> String {
+    // CamelCase variant -> the serde name (snake_case)
+    let mut out = String::new();
+    for (i, ch) in variant.chars().enumerate() {
+        if ch.is_uppercase() { if i > 0 { out.push('_'); } out.push(ch.to_ascii_lowercase()); } else { out.push(ch); }
+    }
+    match out.as_str() { "next_snark_aggregate_verification_key" => "next_aggregate_verification_key_snark".to_string(), _ => out }
+}
+
+/// pm_hash <hex of JSON {"a": {variant: value-hex, ..}, "b": {..}}>: do the two protocol messages have the same digest?
+fn pm_hash(spec_hex: &str) -> String {
+    use mithril_common::entities::{ProtocolMessage, ProtocolMessagePartKey};
+    let spec: serde_json::Value = match serde_json::from_str(&unhex(spec_hex)) { Ok(v) => v, Err(e) => return format!("unsupported (spec: {})", e) };
+    let build = |v: &serde_json::Value| -> Option<ProtocolMessage> {
+        let mut m = ProtocolMessage::new();
+        for (k, val) in v.as_object()? {
+            let key: ProtocolMessagePartKey = serde_json::from_value(serde_json::json!(part_key_name(k))).ok()?;
+            m.set_message_part(key, unhex(val.as_str()?));
+        }
+        Some(m)
+    };
+    match (build(&spec["a"]), build(&spec["b"])) {
+        (Some(a), Some(b)) => format!("{} {}", if a.compute_hash() == b.compute_hash() { "equal-digests" } else { "different-digests" }, if a == b { "equal-messages" } else { "different-messages" }),
+        _ => "unsupported".to_string(),
     }
 }
